@@ -63,8 +63,14 @@ theorem invMod_sound (a n i : Nat) (hn : 0 < n) (h : invMod a n = some i) : (a :
 theorem natOps_homE (n : Nat) (hn : 0 < n) : HomE (natOps n) (Nat.cast : ℕ → ZMod n) where
   toHom := natOps_hom n hn
   eq_sound a b h := by
-    have : a = b := by simpa [natOps] using h
-    rw [this]
+    have : a % n = b % n := by simpa [natOps] using h
+    exact (ZMod.natCast_eq_natCast_iff' a b n).2 this
   inv_sound a i h := invMod_sound a n i hn h
+
+/-- `==` of the driver's operations is equality of residues -/
+theorem natOps_eq_complete (n : Nat) (a b : Nat) (h : ((a : ℕ) : ZMod n) = ((b : ℕ) : ZMod n)) :
+    (natOps n).eq a b = true := by
+  have : a % n = b % n := (ZMod.natCast_eq_natCast_iff' a b n).1 h
+  simp [natOps, this]
 
 end Ymq.PolyMul
